@@ -1397,3 +1397,21 @@ mutant("c03-sshape-branches-swapped", "C03", (T, """                x <= 0.5 * (
                 2.0 * np.square((x - e) / (e - s)),"""), "A3")
 equivalent("c03-eq-gaussian-power-form", "C03", (T, "* np.exp(-np.square(x - m) / (2.0 * std**2))", "* np.exp(-((x - m) ** 2) / (2.0 * std * std))"))
 equivalent("c03-eq-sigmoid-reciprocal", "C03", (T, "/ (1.0 + np.exp(-s * (x - i)))", "* (1.0 / (1.0 + np.exp((i - x) * s)))"))
+
+# ------------------------------------------------------------------------------------------ C11 inverse identity (I1)
+mutant("c11-ramp-height-dropped", "C11", (T, "        x = s + (e - s) * y / h\n", "        x = s + (e - s) * y\n"), "I1")
+mutant("c11-sigmoid-log-argument", "C11", (T, "x = i + np.log(h / y - 1.0) / -s", "x = i + np.log(h / y) / -s"), "I1")
+mutant("c11-sigmoid-sign", "C11", (T, "x = i + np.log(h / y - 1.0) / -s", "x = i + np.log(h / y - 1.0) / s"), "I1")
+mutant("c11-arc-branch-sign", "C11", (T, "sign = -1 if s < e else 1", "sign = 1 if s < e else -1"), "I1")
+mutant("c11-arc-radius", "C11", (T, "x = c + sign * np.sqrt(r**2 - np.square(y * r / h))", "x = c + sign * np.sqrt(r**2 - np.square(y / h))"), "I1")
+mutant("c11-concave-constant", "C11", (T, "x = h * (i - e) / y + 2 * e - i", "x = h * (i - e) / y + e - i"), "I1")
+equivalent("c11-eq-ramp-reassociated", "C11", (T, "        x = s + (e - s) * y / h\n", "        x = (y / h) * (e - s) + s\n"))
+equivalent("c11-eq-sigmoid-log-difference", "C11", (T, "x = i + np.log(h / y - 1.0) / -s", "x = i - np.log((h - y) / y) / s"))
+mutant("c11-sshape-branches-swapped", "C11", (T, """            y <= h / 2.0,
+            s + (e - s) * np.sqrt(y / (2 * h)),
+            e - (e - s) * np.sqrt((h - y) / (2 * h)),""", """            y >= h / 2.0,
+            s + (e - s) * np.sqrt(y / (2 * h)),
+            e - (e - s) * np.sqrt((h - y) / (2 * h)),"""), "I1")
+mutant("c11-sshape-lower-root", "C11", (T, """            s + (e - s) * np.sqrt(y / (2 * h)),
+            e - (e - s) * np.sqrt((h - y) / (2 * h)),""", """            s + (e - s) * np.sqrt(y / h),
+            e - (e - s) * np.sqrt((h - y) / (2 * h)),"""), "I1")
